@@ -113,6 +113,10 @@ type Session struct {
 	errorHandler func(error)
 	timeLocation *time.Location
 	mu           sync.Mutex
+
+	// stopTimers ends the heartbeat and test-request timers started by the previous logon.
+	stopTimers   func()
+	stopTimersMu sync.Mutex
 }
 
 // NewInitiatorSession returns a session for an Initiator object.
@@ -571,6 +575,20 @@ func (s *Session) start() error {
 		return err
 	}
 
+	// A session that logs on again (after a Logout) gets timers for the newly negotiated interval;
+	// the timers of the previous logon must not keep running next to them.
+	stopped := make(chan struct{})
+	s.stopTimersMu.Lock()
+	if s.stopTimers != nil {
+		s.stopTimers()
+	}
+	s.stopTimers = func() {
+		close(stopped)
+		incomingMsgTimer.Close()
+		outgoingMsgTimer.Close()
+	}
+	s.stopTimersMu.Unlock()
+
 	s.Router.HandleIncoming(simplefixgo.AllMsgTypes, func(msg []byte) bool {
 		incomingMsgTimer.Refresh()
 		s.endTestRequestWaiting()
@@ -590,6 +608,8 @@ func (s *Session) start() error {
 			incomingMsgTimer.TakeTimeout()
 			select {
 			case <-s.ctx.Done():
+				return
+			case <-stopped:
 				return
 			default:
 			}
@@ -616,6 +636,8 @@ func (s *Session) start() error {
 			outgoingMsgTimer.TakeTimeout()
 			select {
 			case <-s.ctx.Done():
+				return
+			case <-stopped:
 				return
 			default:
 			}
